@@ -509,3 +509,78 @@ Fixpoint auto_run (fuel : nat) (c : cfg) (s : state) : list tstep * state :=
            | Some (l, s') => let (ls, s'') := auto_run f c s' in (l :: ls, s'')
            end
   end.
+
+(* ---------------------------------------------------------------- *)
+(** * The driver ticked by hand (copy mode of the harness)
+
+    No goroutines: the harness enqueues every command first, then alternates
+    [Driver.Tick()] calls with answers of its GPU.  One call of Tick is the run
+    of the engine goroutine's steps from EPop (tick event) to EEnd; nobody
+    listens, so the notifications are no-ops. *)
+
+Fixpoint tick_run (fuel : nat) (c : cfg) (s : state) : state :=
+  match fuel with
+  | O => s
+  | S k => match eng s with
+           | Some (EEnd _) => s
+           | _ => match eng_step c s with Some s' => tick_run k c s' | None => s end
+           end
+  end.
+
+(** returns the state after the call and Tick's result (madeProgress) *)
+Definition hand_tick (c : cfg) (s : state) : state * bool :=
+  let fuel := 12 + 4 * (length (queues s) + length (empties s)) in
+  let s1 := tick_run fuel c (s <| eng := Some EPop |> <| tick := true |> <| pause := true |>) in
+  (s1 <| eng := None |> <| tick := false |> <| pause := false |>,
+   match eng s1 with Some (EEnd mp) => mp | _ => false end).
+
+(** the harness' GPU answers the request of queue q *)
+Definition hand_answer (s : state) (q : nat) : option state :=
+  if mem_nat q (gpu s) then Some (s <| gpu := remove_first q (gpu s) |> <| resp := resp s ++ [q] |>) else None.
+
+Inductive hevent := HTick | HAnswer (q : nat).
+
+Fixpoint enqueue_all (q : nat) (progs : list (list cmd)) (qs : list queue) : list queue :=
+  match progs with
+  | [] => qs
+  | p :: r => enqueue_all (S q) r (upd q (fun qq => fold_left (fun x cm => q_append cm x) p qq) qs)
+  end.
+
+Definition hand_init (cs : list nat) (progs : list (list cmd)) : state :=
+  let s := init_ctx cs [] in s <| queues := enqueue_all 0 progs (queues s) |>.
+
+(** per queue [length; head id + 1 or 0; IsRunning], 99, requests sent and not
+    answered, crashed *)
+Definition hand_observe (s : state) : list N :=
+  flat_map (fun q => [N.of_nat (length (q_cmds q));
+                      match q_cmds q with [] => 0 | cm :: _ => c_id cm + 1 end;
+                      b2n (q_running q)]%N) (queues s)
+  ++ [99%N; N.of_nat (length (gpu s)); b2n (crashed s)].
+
+Record hcase := mkHand {
+  h_ctx : list nat; h_progs : list (list cmd);
+  h_events : list (hevent * bool * list N)   (* event, Tick's result (false for answers), observation *)
+}.
+
+Fixpoint check_hand (c : cfg) (s : state) (k : nat) (l : list (hevent * bool * list N)) : nat :=
+  match l with
+  | [] => 0
+  | (HTick, mp, o) :: r =>
+    let (s', mp') := hand_tick c s in
+    if Bool.eqb mp mp' && list_eqb (hand_observe s') o then check_hand c s' (S k) r else k
+  | (HAnswer q, _, o) :: r =>
+    match hand_answer s q with
+    | Some s' => if list_eqb (hand_observe s') o then check_hand c s' (S k) r else k
+    | None => k
+    end
+  end.
+
+Fixpoint hmism_from (i : nat) (l : list hcase) : list (N * N) :=
+  match l with
+  | [] => []
+  | h :: r => match check_hand cfg_fixed (hand_init (h_ctx h) (h_progs h)) 1 (h_events h) with
+              | O => hmism_from (S i) r
+              | n => (N.of_nat i, N.of_nat n) :: hmism_from (S i) r
+              end
+  end.
+Definition hand_mismatches (l : list hcase) : list (N * N) := hmism_from 0 l.
